@@ -7,6 +7,7 @@ intervals are cached; R04e `repeat_until_tightened` terminates only on progress 
 import ast
 
 from .. import e1
+from ..astx import code
 from ..astx import self_attr, walk_no_nested, dotted, call_name, terminates, dominating_conditions, flatten_conditions, \
     decorator_names, parent, func_params
 from ..callgraph import CallGraph, diff_entries
@@ -189,7 +190,7 @@ def r04k(ctx):
                      "the interval while reporting progress")
     q = m.need_class("IterativeTighteningSearch")
     f = m.method(q, "bounds")
-    txt = ast.unparse(f.node).replace(" ", "")
+    txt = code(f.node).replace(" ", "")
     rets = [r for r in walk_no_nested(f.node) if isinstance(r, ast.Return) and isinstance(r.value, ast.Call) and call_name(r.value) == "Range" and len(r.value.args) == 2]
     ctx.floor("R04k", len(rets), 1, "computed intervals returned by IterativeTighteningSearch.bounds")
     from ..astx import inline_locals
@@ -320,12 +321,32 @@ def r04e(ctx):
                 ctx.violation("R04e", f.file, "repeat_until_tightened.wrapper", r, "return False",
                               "the wrapper reports no progress without having established a definitive interval")
         elif isinstance(r.value, ast.Constant) and r.value.value is True:
-            cond = [t for t, pol in facts if pol and ("definitive()" in t or "lower_bound >" in t or "upper_bound <" in t)]
-            raw = [t for t, pol in facts]
-            ok_true = bool(cond) or any("definitive()" in t and (">" in t or "<" in t) for t in raw)
+            # the entry snapshot: `S = self.bounds()` before the loop
+            snap = next((a_.targets[0].id for a_ in f.node.body if isinstance(a_, ast.Assign) and isinstance(a_.targets[0], ast.Name)
+                         and isinstance(a_.value, ast.Call) and isinstance(a_.value.func, ast.Attribute) and a_.value.func.attr == "bounds"), None)
+
+            def progress(d):
+                if isinstance(d, ast.Call) and isinstance(d.func, ast.Attribute) and d.func.attr == "definitive" and not d.args:
+                    return True
+                if isinstance(d, ast.Compare) and len(d.ops) == 1 and isinstance(d.left, ast.Attribute) and isinstance(d.comparators[0], ast.Attribute):
+                    l_, r__ = d.left, d.comparators[0]
+                    if l_.attr == r__.attr == "lower_bound" and dotted(r__.value) == snap and isinstance(d.ops[0], ast.Gt):
+                        return True
+                    if l_.attr == r__.attr == "upper_bound" and dotted(r__.value) == snap and isinstance(d.ops[0], ast.Lt):
+                        return True
+                    if l_.attr == r__.attr == "lower_bound" and dotted(l_.value) == snap and isinstance(d.ops[0], ast.Lt):
+                        return True
+                    if l_.attr == r__.attr == "upper_bound" and dotted(l_.value) == snap and isinstance(d.ops[0], ast.Gt):
+                        return True
+                return False
+            pos_tests = [t for t, pol in flatten_conditions(dominating_conditions(r)) if pol
+                         and not (isinstance(t, ast.Constant) and t.value is True)]
+            bad_parts = [d for t in pos_tests for d in (t.values if isinstance(t, ast.BoolOp) and isinstance(t.op, ast.Or) else [t]) if not progress(d)]
+            ok_true = bool(pos_tests) and not bad_parts
             if not ok_true:
-                ctx.violation("R04e", f.file, "repeat_until_tightened.wrapper", r, "return True",
-                              "the wrapper reports progress without checking that the interval shrank or is definitive")
+                ctx.violation("R04e", f.file, "repeat_until_tightened.wrapper", (bad_parts or [r])[0], "return True",
+                              f"the wrapper reports progress on `{norm((bad_parts or [r])[0], 60)}`, which does not say that the interval became "
+                              f"definitive or strictly smaller than at entry: a caller that loops `while tighten_bounds()` never stops")
         else:
             ctx.violation("R04e", f.file, "repeat_until_tightened.wrapper", r, "return",
                           "the wrapper returns a non-constant value")
